@@ -132,6 +132,7 @@ def run(prog, chk):
     from props import C06, C07
     chk.rule(C06.config_single_writer, prog, chk)  # the limits in force are the configuration's: nothing but set_config replaces it (a saved copy restored later undoes a <config>)
     chk.rule(limit_error_rendering_cannot_panic, prog, chk)
+    chk.rule(limit_errors_seen_everywhere, prog, chk)
     if "server" in prog.features:
         C07.server_stack(prog, chk)  # the depth limit is sized for the stack the transform runs on, in every front-end
 
@@ -1260,3 +1261,31 @@ def limit_error_rendering_cannot_panic(prog, chk):
         return
     _C01.panic_sites(prog, chk, reach, floor=None)
     chk.ok("A2.panic-site", "errors:scan", "src/errors.rs", f"{len(reach)} function(s) of the error module examined for panic-capable sites")
+
+
+def limit_errors_seen_everywhere(prog, chk):
+    """a limit error is an error of the document wherever it arises: in process_tags no path takes the result of
+    generate_events on to the next tag without looking at it.  Inside a <specs> block every result is dropped unseen
+    ("a specs entry may have insufficient context until reuse time") - a loop that exceeds loop-limit there, nesting
+    beyond depth-limit there, is accepted"""
+    pt = prog.body("svgdx::transform::process_tags")
+    chk.touch(pt)
+    gens = R.calls_to(pt, lambda c: (c.decl_path == "svgdx::transform::EventGen::generate_events" or c.path.endswith(" as svgdx::transform::EventGen>::generate_events")))
+    if not gens:
+        chk.undecided("A13.limit-final", "process_tags:result-dropped", pt.where(), "process_tags does not call generate_events itself")
+        return
+    for (gb, gt, gc) in gens:
+        lp = R.loop_containing(pt, gb)
+        if lp is None or gt.get("t") is None or not gt.get("dest") or gt["dest"][1]:
+            chk.undecided("A13.limit-final", "process_tags:result-dropped", pt.where(gb, gt.get("line")), "the per-tag loop of process_tags is not recognisable")
+            continue
+        seen = {sb for (sb, st) in R.discr_switches_of(pt, gt["dest"][0])}
+        for (tb_, tt_, tc_) in pt.call_sites(lambda c: c.decl_path == "std::ops::Try::branch"):
+            if tt_.get("args") and R.origin_local(pt, tt_["args"][0]) == gt["dest"][0]:
+                seen.add(tb_)
+        if not seen:
+            chk.undecided("A13.limit-final", "process_tags:result-dropped", pt.where(gb, gt.get("line")), "where process_tags looks at the result of generate_events is not read here")
+            continue
+        r = pt.reach([gt["t"]], avoid=seen)
+        dropped = lp[0] in r
+        chk.ob(not dropped, "A13.limit-final", "process_tags:result-dropped", pt.where(gb, gt.get("line")), "every path from generate_events to the next tag looks at its result", "process_tags goes on to the next tag on a path that never looks at the result of generate_events (the `in_specs` case): a LoopLimitError / VarLimitError / DepthLimitExceeded raised inside a <specs> block is dropped with every other error there, and a document that exceeds a limit inside <specs> is accepted")
